@@ -69,6 +69,21 @@ func (e *Engine) VerifyFunc(fn *ssa.Function, blk *Block, props []string) (err e
 		x.freeVars = append(x.freeVars, PtrV{Kind: PCell, Cell: cell, T: t})
 	}
 	x.entry = s
+	x.ghostCells = map[string]*Cell{}
+	if blk != nil {
+		for _, cl := range blk.Of("ghostvar") {
+			f := strings.Fields(cl.Text)
+			if len(f) >= 2 {
+				if pk := e.P.PkgOf(fn); pk != nil {
+					if obj := pk.Types.Scope().Lookup(f[0]); obj != nil {
+						cell := e.newCell(f[0], obj.Type())
+						x.ghostCells[f[0]] = cell
+						s.cells[cell] = e.zero(obj.Type())
+					}
+				}
+			}
+		}
+	}
 	if blk != nil {
 		for _, cl := range blk.Of("requires") {
 			g := x.evalClauseBool(cl, s, token.NoPos)
@@ -88,6 +103,19 @@ func (e *Engine) VerifyFunc(fn *ssa.Function, blk *Block, props []string) (err e
 	// used to build a concrete input for the replay on the real code
 	var wTerms []*Term
 	var wNames []string
+	// default witnesses: scalar parameters and lengths of slice parameters
+	for i, p := range fn.Params {
+		switch v := x.args[i].(type) {
+		case *Term:
+			if v.Sort == Int || v.Sort == Bool || v.Sort == BV8 {
+				wTerms = append(wTerms, v)
+				wNames = append(wNames, "arg."+p.Name())
+			}
+		case SliceV:
+			wTerms = append(wTerms, v.Len)
+			wNames = append(wNames, "len."+p.Name())
+		}
+	}
 	if blk != nil {
 		for _, cl := range blk.Of("witness") {
 			n := 1
@@ -112,8 +140,15 @@ func (e *Engine) VerifyFunc(fn *ssa.Function, blk *Block, props []string) (err e
 			}
 		}
 	}
+	var hints []*Term
+	for i := range fn.Params {
+		if v, ok := x.args[i].(*Term); ok && v.Sort == Int {
+			hints = append(hints, v)
+		}
+	}
 	defer func() {
 		for _, ob := range e.Obls[start:] {
+			ob.Hints = hints
 			ob.ModelTerms = wTerms
 			ob.ModelNames = wNames
 			if blk != nil {
